@@ -5,7 +5,7 @@ Driver command `table` (after `load <dump>`): run the model of the table constru
 (`Table.build`, Model/Table.lean) on the GRAMMAR and SETTINGS records of the loaded dump and compare
 the result with the TABLE records of the same dump (what the real `LRTable::new` built).
 
-  table            → same <nstates>
+  table            → same <nstates> gwf=<0|1>     (gwf: the hypothesis `Table.gwf` of the construction theorems holds)
                    | diff <where>: model <…> real <…>        (the FIRST difference, in dump order)
                    | model err <symbol> | model panic <site> | model fuel     (the real compiler built a table)
   table outcome    → ok <nstates> | err <symbol> <name-hex> | panic <site> | fuel   (no comparison; for
@@ -146,7 +146,7 @@ def handleTable (d : Dump) (args : String) : String :=
     match r with
     | .ok t =>
       match tableDiff t d.table d.conflicts with
-      | none => s!"same {t.states.size}"
+      | none => s!"same {t.states.size} gwf={if gwf d.grammar then 1 else 0}"
       | some w => "diff " ++ w
     | .err X => s!"model err {X}"
     | .panic s => "model panic " ++ s
